@@ -413,6 +413,24 @@ class ScanProgress:
         if m not in cache:
             ds = [n.value for n in walk_no_nested(self.fi.node) if (isinstance(n, ast.Assign) and any(isinstance(t, ast.Name) and t.id == m for t in n.targets)) or (isinstance(n, ast.NamedExpr) and isinstance(n.target, ast.Name) and n.target.id == m)]
             cache[m] = bool(ds) and all(isinstance(d, ast.Call) and isinstance(d.func, ast.Attribute) and d.func.attr == "match" and ast.unparse(d.func.value) == "pattern" and len(d.args) == 2 and ast.unparse(d.args[0]) == "content" and ast.unparse(d.args[1]) == self.var and not d.keywords for d in ds)
+            if not cache[m] and ds:
+                # a module-level compiled regex applied at pos: `<RE>.match(content, pos)` with a pattern of minimum width >= 1
+                def _const_re_at_pos(d: ast.AST) -> bool:
+                    if not (isinstance(d, ast.Call) and isinstance(d.func, ast.Attribute) and d.func.attr == "match" and isinstance(d.func.value, ast.Name) and len(d.args) == 2 and ast.unparse(d.args[1]) == self.var):
+                        return False
+                    mod = self.fi.module
+                    if not mod.has_const(d.func.value.id):
+                        return False
+                    cn = mod.const_node(d.func.value.id)
+                    pat = self.run.project.try_fold(mod, cn.args[0]) if isinstance(cn, ast.Call) and ast.unparse(cn.func) == "re.compile" and len(cn.args) == 1 else None
+                    if not isinstance(pat, str):
+                        return False
+                    try:
+                        return sp.parse(pat).getwidth()[0] >= 1
+                    except Exception:
+                        return False
+
+                cache[m] = all(_const_re_at_pos(d) for d in ds)
         return cache[m]
 
     # -- lower bounds relative to pos (facts `X > pos`, `X >= pos`, `X > 0` carried along the path) ----------------
@@ -446,7 +464,27 @@ class ScanProgress:
         if isinstance(e, ast.Name):
             if e.id == v:
                 return 0
-            return 1 if f"{e.id} > {v}" in facts else (0 if f"{e.id} >= {v}" in facts else None)
+            if f"{e.id} > {v}" in facts:
+                return 1
+            if f"{e.id} >= {v}" in facts:
+                return 0
+            # a local bound once, in the same block as its use and with no write of pos in between, stands for its definition
+            defs = [a for a in walk_no_nested(self.fi.node) if isinstance(a, ast.Assign) and len(a.targets) == 1 and isinstance(a.targets[0], ast.Name) and a.targets[0].id == e.id]
+            others = [a for a in walk_no_nested(self.fi.node) if isinstance(a, (ast.AugAssign, ast.AnnAssign, ast.NamedExpr)) and isinstance(a.target, ast.Name) and a.target.id == e.id]
+            if len(defs) == 1 and not others and not self.__dict__.get("_lb_depth", 0):
+                blk = _block_of(self.fi.node, defs[0])
+                use = e
+                while use is not None and not isinstance(use, ast.stmt):
+                    use = getattr(use, "_parent", None)
+                if blk is not None and use in blk and blk.index(defs[0]) < blk.index(use):
+                    between = blk[blk.index(defs[0]) + 1: blk.index(use)]
+                    if not any(isinstance(x, (ast.Assign, ast.AugAssign)) and any(isinstance(t, ast.Name) and t.id == v for t in ast.walk(x) if isinstance(getattr(t, "ctx", None), ast.Store)) for st in between for x in ast.walk(st)):
+                        self.__dict__["_lb_depth"] = 1
+                        try:
+                            return self.lb(defs[0].value, facts)
+                        finally:
+                            self.__dict__["_lb_depth"] = 0
+            return None
         if isinstance(e, ast.BinOp) and isinstance(e.op, ast.Add):
             for a, b in ((e.left, e.right), (e.right, e.left)):
                 ka, kb = self.lb(a, facts), self.nn(b, facts)
